@@ -49,9 +49,13 @@ Definition enc_iprec (seq : N) (p : prec) : list byte :=
   le_enc 4 seq ++ le_enc 8 (fst p) ++ le_enc 4 (snd p).
 Definition dec_iprec (r : list byte) : N * prec :=
   (le_dec (firstn 4 r), (le_dec (firstn 8 (skipn 4 r)), le_dec (firstn 4 (skipn 12 r)))).
-(* _offset is a signed 64-bit and _size a signed 32-bit quantity; the model reads them as
-   unsigned.  They differ only for values >= 2^63 / 2^31, which no operation writes as long as
-   sequence numbers are below 2^31 (hypothesis ops_wf of the theorems). *)
+(* _offset is a signed 64-bit and _size a signed 32-bit quantity; the model keeps and reads them
+   as unsigned.  For a message record (offset = length of the data file, size <= 8192) there is no
+   difference.  For the control record  IPrec(0, sender, target)  the 32-bit unsigned sender goes
+   into _offset (never negative) and target into _size: a target >= 2^31 is a negative int32 in
+   memory, the same 4 little-endian bytes on disk, and get(sender&, target&) converts it back to
+   the same unsigned.  Nothing in filepersist.cpp compares or does arithmetic on the control
+   record's fields, so the unsigned reading is exact for all control values < 2^32. *)
 
 (* ---- FilePersister::initialise on an existing store: replay of the index file ----
    IPrec iprec;  while (true) { blrd = read(_iod, &iprec, 16); if (blrd == 0) break;
